@@ -155,4 +155,33 @@ def check_models(repo, chk, tier):
                                       "(the library keeps the old factor for backward compatibility and offers fix_bug1=True)", file=SLS, line=fn.lineno)
                     else:
                         chk.violation("E6-model", fn.key, "BWR_LS:default:%d" % k, "%s does not hold: %s" % (text, detail), file=SLS, line=fn.lineno)
+    # BWR_LS with three partial waves (two mixing angles): numeric denominator == formula.BWR_LS_dom
+    FORM = "tf_pwa/formula.py::"
+    th0, th1 = sp.symbols("theta0 theta1", real=True)
+    ls3 = [(sp.Integer(0), sp.Integer(1)), (sp.Integer(2), sp.Integer(1)), (sp.Integer(2), sp.Integer(2))]
+    m1_, m2_ = sp.symbols("m1 m2", positive=True)
+
+    def relp2_hook(tr_, args, kwargs, n):
+        if args[0] == m:
+            return q ** 2
+        if args[0] == m0:
+            return q0 ** 2
+        raise Unmodelled("get_relative_p2 of unexpected argument")
+
+    for fix in (True, False):
+        fn, v = evaluate(SLS + "::ParticleBWRLS", "get_ls_amp_frac", {"ls_list": ls3, "theta": [PyFunc(lambda: th0), PyFunc(lambda: th1)], "fix_bug1": fix}, [m, ls3, q ** 2, q0 ** 2, sp.Integer(3)])
+        if not (isinstance(v, tuple) and len(v) == 2):
+            raise AnalysisError("ParticleBWRLS.get_ls_amp_frac does not return (denominator, partial widths)")
+        dom_num, tg = v
+        trf = Translator(repo, hooks={FORM + "get_relative_p2": relp2_hook, BWF + "get_bprime_coeff": coeff_hook}, max_depth=8)
+        try:
+            dom_sym = trf.call_fn(repo.fn(FORM + "BWR_LS_dom"), [m, m0, g0, [th0, th1], [sp.Integer(0), sp.Integer(2), sp.Integer(2)], m1_, m2_], {"d": sp.Integer(3), "fix_bug1": fix})
+        except Unmodelled as e:
+            raise AnalysisError("formula.BWR_LS_dom is not a single-path kernel: %s" % e)
+        oblige("model BWR_LS, 3 waves (fix_bug1=%s): formula.BWR_LS_dom == numeric denominator" % fix, dom_sym, dom_num, FORM + "BWR_LS_dom", "BWR_LS_dom:3waves:%s" % fix, "tf_pwa/formula.py")
+        # mixing weights are normalised: sum gamma_i^2 == 1
+        if fix:
+            so_cls = repo.cls(SLS + "::ParticleBWRLS")
+            fnf, gam = evaluate(SLS + "::ParticleBWRLS", "factor_gamma", {"theta": [PyFunc(lambda: th0), PyFunc(lambda: th1)]}, [[0, 2, 2]])
+            oblige("model BWR_LS: sum_i gamma_i^2 == 1 (3 waves)", sp.trigsimp(sum(x ** 2 for x in gam)), sp.Integer(1), fnf.key, "gamma-normalisation", SLS)
     chk.info("not decided at model level: BWR_below (effective-mass switch), MultiBWR (tensor stacking of coefficient variables), GS_rho, Kmatrix, interpolation models")
